@@ -192,6 +192,17 @@ def replay(pid, path, work):
         print("FAILURE", json.dumps({k: v for k, v in f.items() if k != "requests"}, ensure_ascii=False)[:1000])
 
 
+# properties whose text-level theorems assume laws about the char classes; the laws are evaluated on Rust's tables
+LAWS = {
+    "C01": ["C01Text.TextLaws", "C01Text.AlphaLaws", "SpaceWs"],
+    "C10": ["SpaceWs"],
+    "C11": ["C11.CaseLaws", "C11.Recasing.asciiUpper", "C11.Recasing.asciiLower"],
+    "C15": ["CommaChar"],
+    "C17": ["WsLaws", "LowerWs", "LowerWsNe"] + ["SepInert." + l for l in LANGS] + ["C17.TextLaws." + l for l in LANGS],
+    "C18": ["SpaceWs"],
+}
+
+
 def all_langs(prefix):
     return [prefix + ":" + l for l in LANGS]
 
